@@ -13,12 +13,8 @@ cases = json.loads(sys.stdin.read())
 keep = []
 
 
-def render(decl):
-    ffi = cdefgen.build_ffi(cffi, decl)
-    fs = simfs.SimFS()
-    fs.dirs.add(simfs.ROOT + '/o')
+def emit(ffi, decl, fs, target):
     seam.fs = fs
-    target = simfs.ROOT + '/o/x' + ('.py' if decl['source'] is None else '.c')
     try:
         with contextlib.redirect_stdout(io.StringIO()):
             if decl['source'] is None:
@@ -27,6 +23,22 @@ def render(decl):
                 ffi.emit_c_code(target)
     finally:
         seam.fs = None
+
+
+def render(decl):
+    fs = simfs.SimFS()
+    fs.dirs.add(simfs.ROOT + '/o')
+    ext = '.py' if decl['source'] is None else '.c'
+    target = simfs.ROOT + '/o/x' + ext
+    midway = None
+    if history == 'emit_midway':
+        # the same FFI object is emitted once before its remaining declarations arrive, and once more
+        # right before the emission that counts: neither may leave a trace in the final text
+        midway = lambda f: emit(f, decl, fs, simfs.ROOT + '/o/early' + ext)
+    ffi = cdefgen.build_ffi(cffi, decl, midway)
+    if history == 'emit_midway':
+        emit(ffi, decl, fs, simfs.ROOT + '/o/again' + ext)
+    emit(ffi, decl, fs, target)
     return hashlib.sha256(fs.get(target)).hexdigest()
 
 
